@@ -176,13 +176,14 @@ example : ∃ (g : RNG Nat) (w w' : World Nat),
 
 /-! ## HOADmodel -/
 
-/-- `HOADmodel(N, activities_per_order, time)` for every outcome of the coins and samples.  Hypothesis: every activity
-vector has length `N`.  `hoad .. = some out` says that the recording follows the pattern `random() [sample]` and that
-every sample satisfies the contract of `random.sample(range(N), order)` (`sampleOK`); the correspondence check shows
-that real runs are of this kind.  Conclusion: the records are pairwise distinct; each has a time in `[0, time)`, and for
-some order of the dict size `order + 1`, distinct nodes, all below `N`. -/
+/-- `HOADmodel(N, activities_per_order, time)` for every outcome of the coins and samples and for activity vectors of
+ANY length (no hypothesis on the arguments).  `hoad .. = .done out` says that the call returned on a recording that
+follows the pattern `random() [sample]` and in which every sample satisfies the contract of
+`random.sample(range(N), order)` (`sampleOK`); the correspondence check shows that real runs are of this kind.
+Conclusion: the records are pairwise distinct; each has a time in `[0, time)`, and for some order of the dict size
+`order + 1`, distinct nodes, all below `N`. -/
 theorem C14_hoad (N time : Nat) (acts : List (Nat × List Rat)) (draws : List HoadDraw) (out : List (Nat × Edge))
-    (hlen : ∀ oa ∈ acts, oa.2.length = N) (h : hoad N time acts draws = some out) :
+    (h : hoad N time acts draws = .done out) :
     out.Nodup ∧ ∀ r ∈ out, r.1 < time ∧ ∃ oa ∈ acts, r.2.length = oa.1 + 1 ∧ r.2.Nodup ∧ ∀ x ∈ r.2, x < N := by
   unfold hoad at h
   split at h
@@ -190,14 +191,56 @@ theorem C14_hoad (N time : Nat) (acts : List (Nat × List Rat)) (draws : List Ho
     cases h
     refine ⟨nodup_dedup _, ?_⟩
     intro r hr
-    obtain ⟨h1, oa, hoa, h2⟩ := hoadOrders_spec N time acts draws o1 [] hlen ho r (mem_dedup.mp hr)
+    obtain ⟨h1, oa, hoa, h2⟩ := hoadOrders_spec N time acts draws o1 [] ho r (mem_dedup.mp hr)
     exact ⟨h1, oa, hoa, h2⟩
+  · cases h
+  · cases h
+
+/-- the nodes that can fire are `0..N-1`, whatever the length of the activity vectors: the entries of a vector beyond
+position `N` are never read - the run on the vectors cut to their first `N` entries is the same run (same outcome
+`done`/`raised`/`stuck`, same records) on every recording -/
+theorem C14_hoad_surplus (N time : Nat) (acts : List (Nat × List Rat)) (draws : List HoadDraw) :
+    hoad N time (acts.map (fun oa => (oa.1, oa.2.take N))) draws = hoad N time acts draws := by
+  simp only [hoad, hoadOrders_take]
+
+/-- an activity vector shorter than `N` never yields a result when at least one time step is simulated (the real
+routine raises `IndexError` at `act_vect[node_i]`) -/
+theorem C14_hoad_short (N time : Nat) (acts : List (Nat × List Rat)) (draws : List HoadDraw) (ht : 0 < time)
+    (hex : ∃ oa ∈ acts, oa.2.length < N) : ∀ out, hoad N time acts draws ≠ .done out := by
+  intro out h
+  unfold hoad at h
+  split at h
+  · rename_i o1 ho
+    exact hoadOrders_short N time ht acts draws hex _ ho
+  · cases h
+  · cases h
+
+/-- vectors with at least `N` entries and orders `≤ N` (the admissible arguments): the routine never raises -/
+theorem C14_hoad_no_raise (N time : Nat) (acts : List (Nat × List Rat)) (draws : List HoadDraw)
+    (hall : ∀ oa ∈ acts, N ≤ oa.2.length ∧ oa.1 ≤ N) : ∀ r, hoad N time acts draws ≠ .raised r := by
+  intro r h
+  unfold hoad at h
+  split at h
+  · cases h
+  · rename_i ho
+    exact hoadOrders_no_raise N time acts draws hall _ ho
   · cases h
 
 /-- non-vacuity (activities and coins are quarters): node 0 is activated and samples node 2; node 1 is activated but
 samples itself (dropped); node 2 is not activated -/
 example : hoad 3 1 [(1, [3/4, 3/4, 1/4])]
-    [⟨1/4, true, [2]⟩, ⟨1/2, true, [1]⟩, ⟨1/2, false, []⟩] = some [(0, [0, 2])] := by decide +kernel
+    [⟨1/4, true, [2]⟩, ⟨1/2, true, [1]⟩, ⟨1/2, false, []⟩] = .done [(0, [0, 2])] := by decide +kernel
+
+/-- the same run with a vector of five entries (the seeded change C14-c2 let nodes 3 and 4 fire here): three coins are
+consumed, not five, and no record contains a node `≥ 3` -/
+example : hoad 3 1 [(1, [3/4, 3/4, 1/4, 1, 1])]
+    [⟨1/4, true, [2]⟩, ⟨1/2, true, [1]⟩, ⟨1/2, false, []⟩] = .done [(0, [0, 2])] := by decide +kernel
+
+/-- a vector of two entries for `N = 3`: the call raises after the coins of nodes 0 and 1 -/
+example : hoad 3 1 [(1, [3/4, 1/4])] [⟨1/4, true, [2]⟩, ⟨1/2, false, []⟩] = .raised [] := by decide +kernel
+
+/-- order 3 with `N = 2`: the first activated node makes `random.sample(range(2), 3)` raise -/
+example : hoad 2 1 [(3, [1/4, 3/4])] [⟨1/2, false, []⟩, ⟨1/2, false, []⟩] = .raised [] := by decide +kernel
 
 /-! ## add_random_edge / add_random_edges -/
 
@@ -207,6 +250,46 @@ theorem C14_inplace (h h' : HG) :
     (finish false h h').arg = h ∧ (finish false h h').ret = some h' ∧
     (finish true h h').arg = h' ∧ (finish true h h').ret = none := by
   simp [finish]
+
+/-- the same at the level of OBJECTS (`finishObj`, `finishObjAll`: `h = hg if inplace else hg.copy()`).  Hypothesis: the
+argument is a live object `a` with content `h`.  With `inplace=False` the returned object is a different, new object
+(not the argument, not any object that existed before), the argument keeps its content, the result carries `h'`, and
+WHATEVER is written into the returned object afterwards (`x`: a later in-place shuffle, `add_edge`, ...) the argument
+still has its content; every other object is untouched too.  With `inplace=True` the argument carries `h'`. -/
+theorem C14_inplace_objects (H : Heap) (a : Nat) (h h' : HG) (ha : AL.get? H a = some h) :
+    (∃ r, (finishObj H a false h').2 = some r ∧ (finishObjAll H a false h').2 = some r ∧
+      finishObjAll H a false h' = finishObj H a false h' ∧
+      r ≠ a ∧ AL.get? H r = none ∧
+      AL.get? (finishObj H a false h').1 a = some h ∧ AL.get? (finishObj H a false h').1 r = some h' ∧
+      (∀ b, b ≠ r → AL.get? (finishObj H a false h').1 b = AL.get? H b) ∧
+      (∀ x b, b ≠ r → AL.get? (AL.set (finishObj H a false h').1 r x) b = AL.get? H b) ∧
+      (∀ x, AL.get? (AL.set (finishObj H a false h').1 r x) a = some h)) ∧
+    (finishObj H a true h').2 = none ∧ AL.get? (finishObj H a true h').1 a = some h' ∧
+    (finishObjAll H a true h').2 = some a ∧ AL.get? (finishObjAll H a true h').1 a = some h' := by
+  have hne : freshId H ≠ a := by
+    intro e
+    have := get?_freshId H
+    rw [e, ha] at this; cases this
+  refine ⟨⟨freshId H, by simp [finishObj], by simp [finishObjAll], by simp [finishObj, finishObjAll], hne,
+    get?_freshId H, ?_, ?_, ?_, ?_, ?_⟩, by simp [finishObj], by simp [finishObj], by simp [finishObjAll],
+    by simp [finishObjAll]⟩
+  · simp only [finishObj, Bool.false_eq_true, if_false]
+    rw [AL.get?_set_ne _ _ _ _ hne, ha]
+  · simp [finishObj]
+  · intro b hb
+    simp only [finishObj, Bool.false_eq_true, if_false]
+    exact AL.get?_set_ne _ _ _ _ (Ne.symm hb)
+  · intro x b hb
+    simp only [finishObj, Bool.false_eq_true, if_false]
+    rw [AL.get?_set_ne _ _ _ _ (Ne.symm hb), AL.get?_set_ne _ _ _ _ (Ne.symm hb)]
+  · intro x
+    simp only [finishObj, Bool.false_eq_true, if_false]
+    rw [AL.get?_set_ne _ _ _ _ hne, AL.get?_set_ne _ _ _ _ hne, ha]
+
+/-- non-vacuity: two live objects 3 and 7; the call on object 3 with `inplace=False` returns the new object 8 -/
+example : (finishObj [(3, ⟨false, [0, 1], [([0, 1], (1, 0))]⟩), (7, {})] 3 false ⟨false, [0, 1], []⟩).2 = some 8 ∧
+    AL.get? (finishObj [(3, ⟨false, [0, 1], [([0, 1], (1, 0))]⟩), (7, {})] 3 false ⟨false, [0, 1], []⟩).1 3
+      = some ⟨false, [0, 1], [([0, 1], (1, 0))]⟩ := by decide
 
 /-- `add_random_edge` for every outcome of `random.sample(nodes, size)`.  Hypotheses: the class invariants `WF`;
 exactly one of `order`/`size`; the sample contract.  Conclusion (for the object `h'` that carries the result, see
